@@ -802,6 +802,15 @@ def replay(ctx, path):
         if src:
             t = src[0].split()
             evs = parse_script(t[3:])
+            if any(e[0] == "P" and e[1] == u16("Xalan") and e[2] == u16("raw") for e in evs):
+                # the raw marker (props/C04_legacy.py): the event after it is written unescaped, so the script is not
+                # its own expected tree; verdict = both serializers write well-formed output and agree after parsing
+                print("   legacy  :", f[2][:200] if len(f) > 2 else "")
+                print("   reparse :", f[3][:300] if len(f) > 3 else "")
+                okc = len(f) > 3 and f[0].startswith("ok:") and f[2].startswith("ok:") and not f[1].startswith("PARSEERR") and f[1] == f[3]
+                print("   verdict :", "both serializers agree (raw marker script)" if okc else "FAILS the property (raw marker: not well-formed, or the two serializers disagree)")
+                bad += 0 if okc else 1
+                continue
             exp = expected_tree(evs)
             representable, kcls = classify(t[1], t[2], evs)
             print("   expected:", exp[:300], "(representable)" if representable else "(not representable: an error is expected)")
